@@ -59,7 +59,7 @@ func findUDP(c *Ctx, rule string) *udpAnchors {
 		}
 		for _, cl := range eng.Calls(f) {
 			call, ok := cl.(*ssa.Call)
-			if !ok || eng.CalleeName(&call.Call) != "(net.PacketConn).ReadFrom" || eng.InnermostLoop(eng.Loops(f), call.Block()) == nil {
+			if !ok || (eng.CalleeName(&call.Call) != "(net.PacketConn).ReadFrom" && !isReadWrapperCall(c, call)) || eng.InnermostLoop(eng.Loops(f), call.Block()) == nil {
 				continue
 			}
 			if reaches(c, f, isGet, memo) || familyHas(f, isGet) {
@@ -878,6 +878,65 @@ func ruleReplyAddr(c *Ctx, a *udpAnchors) {
 	c.Floor("REPLYADDR", "reply loops", n, 1)
 }
 
+// isReadWrapperCall: a call of a helper of the package that stands for the read on the listening socket: it returns
+// (n int, addr net.Addr, err error) and reads a packet connection itself (directly or one level down).
+func isReadWrapperCall(c *Ctx, call *ssa.Call) bool {
+	h := call.Call.StaticCallee()
+	if h == nil || !c.P.InRepo(h) || len(h.Blocks) == 0 || eng.PkgPathOf(h) != eng.Mod+"/service" || c.P.IsTestSupport(h) {
+		return false
+	}
+	rs := h.Signature.Results()
+	if rs.Len() != 3 || rs.At(0).Type().String() != "int" || rs.At(1).Type().String() != "net.Addr" || rs.At(2).Type().String() != "error" {
+		return false
+	}
+	for _, g := range regionFns(c, h, nil, 2) {
+		for _, cl := range eng.Calls(g) {
+			if isBlockingSocketCall(cl) || strings.HasPrefix(eng.MethodName(cl.Common()), "ReadFrom") {
+				return true
+			}
+		}
+	}
+	return false
+}
+
+// ruleClientAddrFresh: when the listening socket is read through a helper, the client address it hands out belongs to this
+// datagram: every returned address is the socket read's own result, nil, or freshly built in that call — never the address of
+// storage that outlives the call (a field of the reader, reused for the next datagram): associations keep the address they
+// were created with, so a reused object silently re-addresses every earlier association to the latest sender.
+func ruleClientAddrFresh(c *Ctx, a *udpAnchors, rule string) {
+	p := c.P
+	if a.readFrom == nil || !isReadWrapperCall(c, a.readFrom) {
+		return
+	}
+	h := a.readFrom.Call.StaticCallee()
+	for i, r := range eng.Returns(h) {
+		if len(r.Results) != 3 {
+			continue
+		}
+		rv := r.Results[1]
+		if sv := p.ReachingStore(rv, r); sv != nil {
+			rv = sv
+		}
+		good, bad := p.AllFrom(rv, eng.OriginOpts{ThroughConvert: true}, func(v ssa.Value) bool {
+			switch x := v.(type) {
+			case *ssa.Const:
+				return x.IsNil()
+			case *ssa.Alloc:
+				return x.Heap && x.Parent() == h // &net.UDPAddr{…} built by this call
+			case *ssa.FieldAddr, *ssa.IndexAddr, *ssa.Global:
+				return false
+			}
+			if cc, _, ok := eng.AsResult(v); ok {
+				// the socket's own answer, or a value built by a function outside the module (net.UDPAddrFromAddrPort)
+				hh := cc.Call.StaticCallee()
+				return hh == nil || !p.InRepo(hh)
+			}
+			return false
+		})
+		c.CheckAt(rule, fmt.Sprintf("%s:return#%d:client-address-belongs-to-this-datagram", short(h), i), r, good, "the read helper returns a client address that is not the socket's own answer nor freshly built (e.g. the address of a field it reuses for every datagram): the association created for one client is re-addressed to whoever sent the latest datagram ("+valsStr(p, bad)+")")
+	}
+}
+
 // C04.NATKEY
 func ruleNatKey(c *Ctx, a *udpAnchors) {
 	p := c.P
@@ -944,7 +1003,9 @@ func ruleNatKey(c *Ctx, a *udpAnchors) {
 		if eng.ResultOf(x, a.readFrom, 1) {
 			return true
 		}
-		for _, o := range p.Origins(x, deepF) {
+		oo := deepF
+		oo.Stop = func(v ssa.Value) bool { return eng.ResultOf(v, a.readFrom, 1) } // do not look inside a read helper
+		for _, o := range p.Origins(x, oo) {
 			if eng.ResultOf(o, a.readFrom, 1) {
 				return true
 			}
@@ -961,7 +1022,9 @@ func ruleNatKey(c *Ctx, a *udpAnchors) {
 		for _, ar := range ad.Call.Args {
 			switch ar.Type().String() {
 			case "net.Addr":
-				for _, o := range p.Origins(ar, deepF) {
+				oo := deepF
+				oo.Stop = func(v ssa.Value) bool { return a.readFrom != nil && eng.ResultOf(v, a.readFrom, 1) }
+				for _, o := range p.Origins(ar, oo) {
 					if fromRead(baseRoot(o)) || fromRead(o) {
 						okA = true
 					}
